@@ -6,6 +6,7 @@
   repair; `C20_counterexample_old` shows that it violated the property.
 -/
 import TT.Model.Normalize
+import TT.Lemmas.Normalize
 
 namespace TT
 
@@ -71,38 +72,295 @@ def SimEvs (σ : Nat → Nat) : List Event → List Event → Prop
 /-- `σ` is injective on the ids in `S`. -/
 def InjOn (σ : Nat → Nat) (S : List Nat) : Prop := ∀ a b, a ∈ S → b ∈ S → σ a = σ b → a = b
 
+/-! ### Helper lemmas -/
+
+theorem finalMap_eq (m : AMap Nat Nat) (evs : List Event) :
+    finalMap m evs = assignAll m (mentions evs) := rfl
+
+theorem finalMap_step (m : AMap Nat Nat) (e : Event) (es : List Event) :
+    finalMap m (e :: es) = finalMap (normStep m e).1 es := by
+  cases e <;> rfl
+
+theorem mem_mentions {a : Nat} {evs : List Event} :
+    a ∈ mentions evs ↔ ∃ e ∈ evs, e.mt? = some a := by
+  simp [mentions, List.mem_filterMap]
+
+theorem finalMap_get_assign (m : AMap Nat Nat) (id : Nat) (es : List Event) :
+    ((finalMap (assignId m id).1 es).get id).getD 0 = (assignId m id).2 := by
+  rw [finalMap_eq, assignAll_stable (mentions es) (assignId_get_self m id)]
+  rfl
+
+theorem normalizeFrom_eq (m : AMap Nat Nat) (evs : List Event) :
+    normalizeFrom m evs
+      = evs.map (fun e => scrubEv (renameEv (fun id => ((finalMap m evs).get id).getD 0) e)) := by
+  induction evs generalizing m with
+  | nil => rfl
+  | cons e es ih =>
+    rw [normalizeFrom, ih, List.map_cons, finalMap_step]
+    congr 1
+    cases e <;> simp [normStep, renameEv, scrubEv, finalMap_get_assign]
+
+/-! #### first-occurrence index -/
+
+theorem get_eq_indexIn_aux (m : AMap Nat Nat) (s : Nat)
+    (h : m.map (·.2) = List.range' s m.length) (id : Nat) :
+    AMap.get m id = (indexIn (m.map (·.1)) id).map (· + s) := by
+  induction m generalizing s with
+  | nil => rfl
+  | cons kv m ih =>
+    obtain ⟨k, v⟩ := kv
+    simp only [List.map_cons, List.length_cons, List.range'_succ, List.cons.injEq] at h
+    obtain ⟨hv, ht⟩ := h
+    simp only [AMap.get_cons', List.map_cons, indexIn]
+    by_cases hk : k = id
+    · simp [hk, hv]
+    · rw [if_neg hk, if_neg hk, ih (s + 1) ht, Option.map_map]
+      congr 1
+      funext x
+      simp only [Function.comp]
+      omega
+
+theorem assignAll_keys (m : AMap Nat Nat) (ids : List Nat) :
+    (assignAll m ids).map (·.1)
+      = m.map (·.1) ++ (distinctIds ids).filter (fun x => decide (x ∉ m.map (·.1))) := by
+  induction ids generalizing m with
+  | nil => simp [distinctIds]
+  | cons x xs ih =>
+    rw [assignAll_cons, ih, assignId_keys]
+    by_cases hx : x ∈ m.map (·.1)
+    · rw [if_pos hx]
+      simp only [distinctIds, List.filter_cons, hx, not_true_eq_false, decide_false,
+        Bool.false_eq_true, if_false, List.filter_filter]
+      congr 1
+      apply List.filter_congr
+      intro y _
+      by_cases hy : y = x
+      · subst hy; simp [hx]
+      · simp [hy]
+    · rw [if_neg hx]
+      simp only [distinctIds, List.filter_cons, hx, not_false_eq_true, decide_true,
+        if_true, List.filter_filter, List.append_assoc, List.singleton_append]
+      congr 2
+      apply List.filter_congr
+      intro y _
+      by_cases hy : y = x
+      · subst hy; simp
+      · simp [hy]
+
+theorem finalMap_get_eq (evs : List Event) (id : Nat) :
+    (finalMap [] evs).get id = firstIndex (mentions evs) id := by
+  have hr : Ranked (assignAll [] (mentions evs)) := assignAll_ranked ranked_nil (mentions evs)
+  have hk := assignAll_keys [] (mentions evs)
+  rw [finalMap_eq, get_eq_indexIn_aux _ 0 (by simpa [Ranked, List.range_eq_range'] using hr), hk]
+  have hf : ∀ l : List Nat, l.filter (fun _ => true) = l := fun l =>
+    List.filter_eq_self.mpr (fun _ _ => rfl)
+  simp [firstIndex, hf]
+
+theorem mem_distinctIds {a : Nat} {xs : List Nat} : a ∈ distinctIds xs ↔ a ∈ xs := by
+  induction xs with
+  | nil => simp [distinctIds]
+  | cons x xs ih =>
+    simp only [distinctIds, List.mem_cons, List.mem_filter, ih]
+    by_cases h : a = x
+    · simp [h]
+    · simp [h]
+
+theorem indexIn_of_mem {a : Nat} {xs : List Nat} (h : a ∈ xs) : ∃ i, indexIn xs a = some i := by
+  induction xs with
+  | nil => simp at h
+  | cons x xs ih =>
+    simp only [indexIn]
+    by_cases hx : x = a
+    · exact ⟨0, by simp [hx]⟩
+    · have : a ∈ xs := by
+        rcases List.mem_cons.mp h with h | h
+        · exact absurd h.symm hx
+        · exact h
+      obtain ⟨i, hi⟩ := ih this
+      exact ⟨i + 1, by simp [hx, hi]⟩
+
+theorem indexIn_getElem {a i : Nat} {xs : List Nat} (h : indexIn xs a = some i) :
+    xs[i]? = some a := by
+  induction xs generalizing i with
+  | nil => simp [indexIn] at h
+  | cons x xs ih =>
+    simp only [indexIn] at h
+    by_cases hx : x = a
+    · simp [hx] at h; subst h; simp [hx]
+    · rw [if_neg hx] at h
+      cases hj : indexIn xs a with
+      | none => simp [hj] at h
+      | some j =>
+        simp [hj] at h
+        subst h
+        simpa using ih hj
+
+/-! #### relabelling -/
+
+/-- `m'` is `m` with its keys relabelled through `σ` (as far as ids in `S` can tell). -/
+def MapRel (σ : Nat → Nat) (S : List Nat) (m m' : AMap Nat Nat) : Prop :=
+  m'.length = m.length ∧ ∀ a ∈ S, AMap.get m' (σ a) = AMap.get m a
+
+theorem assignId_rel {σ : Nat → Nat} {S : List Nat} {m m' : AMap Nat Nat} (hσ : InjOn σ S)
+    (hr : MapRel σ S m m') {a : Nat} (ha : a ∈ S) :
+    (assignId m' (σ a)).2 = (assignId m a).2
+      ∧ MapRel σ S (assignId m a).1 (assignId m' (σ a)).1 := by
+  obtain ⟨hl, hg⟩ := hr
+  cases h : AMap.get m a with
+  | some v =>
+    have h' : AMap.get m' (σ a) = some v := by rw [hg a ha, h]
+    rw [assignId_of_some h, assignId_of_some h']
+    exact ⟨rfl, hl, hg⟩
+  | none =>
+    have h' : AMap.get m' (σ a) = none := by rw [hg a ha, h]
+    rw [assignId_of_none h, assignId_of_none h']
+    refine ⟨hl, by simp [hl], ?_⟩
+    intro b hb
+    simp only [AMap.get_append_single, hg b hb, hl]
+    cases AMap.get m b with
+    | some x => rfl
+    | none =>
+      by_cases hab : a = b
+      · simp [hab]
+      · have : σ a ≠ σ b := fun e => hab (hσ a b ha hb e)
+        simp [hab, this]
+
+theorem simEv_cases {σ : Nat → Nat} {e e' : Event} (h : SimEv σ e e') :
+    (∃ id d d', e = .newCallSite id d ∧ e' = .newCallSite (σ id) d' ∧ scrubSite d = scrubSite d') ∨
+    (∃ id p mt vs, e = .newSpan id p mt vs ∧ e' = .newSpan id p (σ mt) vs) ∨
+    (∃ mt p vs, e = .newEvent mt p vs ∧ e' = .newEvent (σ mt) p vs) ∨
+    (e.mt? = none ∧ e' = e) := by
+  cases e with
+  | newCallSite id d =>
+    cases e' <;> simp only [SimEv] at h
+    obtain ⟨rfl, hd⟩ := h
+    exact Or.inl ⟨_, _, _, rfl, rfl, hd⟩
+  | newSpan id p mt vs =>
+    cases e' <;> simp only [SimEv] at h
+    obtain ⟨rfl, rfl, rfl, rfl⟩ := h
+    exact Or.inr (Or.inl ⟨_, _, _, _, rfl, rfl⟩)
+  | newEvent mt p vs =>
+    cases e' <;> simp only [SimEv] at h
+    obtain ⟨rfl, rfl, rfl⟩ := h
+    exact Or.inr (Or.inr (Or.inl ⟨_, _, _, rfl, rfl⟩))
+  | followsFrom a b => simp_all [SimEv, Event.mt?]
+  | entered a => simp_all [SimEv, Event.mt?]
+  | exited a => simp_all [SimEv, Event.mt?]
+  | cloned a => simp_all [SimEv, Event.mt?]
+  | dropped a => simp_all [SimEv, Event.mt?]
+  | valuesRecorded a vs => simp_all [SimEv, Event.mt?]
+
+theorem normStep_of_mt_none {e : Event} (h : e.mt? = none) (m : AMap Nat Nat) :
+    normStep m e = (m, e) := by
+  cases e <;> simp_all [Event.mt?, normStep]
+
+theorem normStep_rel {σ : Nat → Nat} {S : List Nat} {m m' : AMap Nat Nat} {e e' : Event}
+    (hσ : InjOn σ S) (hr : MapRel σ S m m') (hs : SimEv σ e e')
+    (hS : ∀ a, e.mt? = some a → a ∈ S) :
+    (normStep m' e').2 = (normStep m e).2 ∧ MapRel σ S (normStep m e).1 (normStep m' e').1 := by
+  rcases simEv_cases hs with ⟨id, d, d', rfl, rfl, hd⟩ | ⟨id, p, mt, vs, rfl, rfl⟩ |
+    ⟨mt, p, vs, rfl, rfl⟩ | ⟨hn, rfl⟩
+  · obtain ⟨h1, h2⟩ := assignId_rel hσ hr (hS id rfl)
+    simp only [normStep, h1, hd]
+    exact ⟨trivial, h2⟩
+  · obtain ⟨h1, h2⟩ := assignId_rel hσ hr (hS mt rfl)
+    simp only [normStep, h1]
+    exact ⟨trivial, h2⟩
+  · obtain ⟨h1, h2⟩ := assignId_rel hσ hr (hS mt rfl)
+    simp only [normStep, h1]
+    exact ⟨trivial, h2⟩
+  · rw [normStep_of_mt_none hn, normStep_of_mt_none hn]
+    exact ⟨rfl, hr⟩
+
+theorem normalizeFrom_rel {σ : Nat → Nat} {S : List Nat} (hσ : InjOn σ S) :
+    ∀ (evs evs' : List Event) (m m' : AMap Nat Nat), MapRel σ S m m' → SimEvs σ evs evs' →
+      (∀ a ∈ mentions evs, a ∈ S) → normalizeFrom m' evs' = normalizeFrom m evs := by
+  intro evs
+  induction evs with
+  | nil =>
+    intro evs' m m' _ hs _
+    cases evs' with
+    | nil => rfl
+    | cons e' es' => simp [SimEvs] at hs
+  | cons e es ih =>
+    intro evs' m m' hr hs hS
+    cases evs' with
+    | nil => simp [SimEvs] at hs
+    | cons e' es' =>
+      simp only [SimEvs] at hs
+      obtain ⟨hs1, hs2⟩ := hs
+      have hSe : ∀ a, e.mt? = some a → a ∈ S := fun a ha =>
+        hS a (mem_mentions.mpr ⟨e, List.mem_cons_self, ha⟩)
+      have hSes : ∀ a ∈ mentions es, a ∈ S := fun a ha => by
+        obtain ⟨x, hx, hxa⟩ := mem_mentions.mp ha
+        exact hS a (mem_mentions.mpr ⟨x, List.mem_cons_of_mem _ hx, hxa⟩)
+      obtain ⟨h1, h2⟩ := normStep_rel hσ hr hs1 hSe
+      rw [normalizeFrom, normalizeFrom, h1, ih es' _ _ h2 hs2 hSes]
+
+theorem simEv_scrub_rename (σ : Nat → Nat) (e : Event) : SimEv σ e (scrubEv (renameEv σ e)) := by
+  cases e <;> simp [SimEv, renameEv, scrubEv, scrubSite_idem]
+
+theorem simEvs_map (σ : Nat → Nat) (evs : List Event) :
+    SimEvs σ evs (evs.map (fun e => scrubEv (renameEv σ e))) := by
+  induction evs with
+  | nil => simp [SimEvs]
+  | cons e es ih => exact ⟨simEv_scrub_rename σ e, ih⟩
+
+
 /-- (A) Normalization is exactly: rename every call-site id by `rank`, scrub lines and event names. -/
 theorem C20_is_renaming (evs : List Event) :
     normalize evs = evs.map (fun e => scrubEv (renameEv (rank evs) e)) := by
-  sorry
+  exact normalizeFrom_eq [] evs
 
 /-- `rank` numbers call sites by first occurrence: 0, 1, 2, … -/
 theorem C20_rank_first_occurrence (evs : List Event) (id : Nat) (h : id ∈ mentions evs) :
     some (rank evs id) = firstIndex (mentions evs) id := by
-  sorry
+  have hm : id ∈ distinctIds (mentions evs) := mem_distinctIds.mpr h
+  obtain ⟨i, hi⟩ := indexIn_of_mem hm
+  have hi' : firstIndex (mentions evs) id = some i := hi
+  rw [rank, finalMap_get_eq, hi']
+  rfl
 
 /-- (B) Collision-free and consistent, duplicate announcements included: two mentioned call sites
     get the same number iff they are the same call site. -/
 theorem C20_consistent (evs : List Event) (a b : Nat) (ha : a ∈ mentions evs) (hb : b ∈ mentions evs) :
     rank evs a = rank evs b ↔ a = b := by
-  sorry
+  constructor
+  · intro hab
+    have h1 := C20_rank_first_occurrence evs a ha
+    have h2 := C20_rank_first_occurrence evs b hb
+    rw [hab] at h1
+    have e1 := indexIn_getElem (xs := distinctIds (mentions evs)) h1.symm
+    have e2 := indexIn_getElem (xs := distinctIds (mentions evs)) h2.symm
+    rw [e1] at e2
+    exact Option.some.inj e2
+  · intro hab
+    rw [hab]
 
 /-- (C) The result is identical for sequences that differ only in concrete ids (any relabelling
     injective on the ids that occur), line numbers, or event call-site names. -/
 theorem C20_invariant (σ : Nat → Nat) (evs evs' : List Event) (hσ : InjOn σ (mentions evs))
     (h : SimEvs σ evs evs') : normalize evs' = normalize evs := by
-  sorry
+  exact normalizeFrom_rel hσ evs evs' [] [] ⟨rfl, fun _ _ => rfl⟩ h (fun _ ha => ha)
 
 /-- (D) Normalizing twice changes nothing. -/
 theorem C20_idempotent (evs : List Event) : normalize (normalize evs) = normalize evs := by
-  sorry
+  have hinj : InjOn (rank evs) (mentions evs) := fun a b ha hb hab =>
+    (C20_consistent evs a b ha hb).mp hab
+  have hsim : SimEvs (rank evs) evs (normalize evs) := by
+    rw [C20_is_renaming]
+    exact simEvs_map (rank evs) evs
+  exact C20_invariant (rank evs) evs (normalize evs) hinj hsim
 
 /-- (E) Span ids, parents, values, call-site data other than id/line/event-name, and the order
     of events are untouched. -/
 theorem C20_untouched (evs : List Event) :
     (normalize evs).map (fun e => scrubEv (renameEv (fun _ => 0) e))
       = evs.map (fun e => scrubEv (renameEv (fun _ => 0) e)) := by
-  sorry
+  rw [C20_is_renaming, List.map_map]
+  apply List.map_congr_left
+  intro e _
+  cases e <;> simp [renameEv, scrubEv, scrubSite_idem]
 
 /-- The behaviour before the repair violated (B): ids `100, 200, 100, 300` were numbered
     `0, 1, 2, 2`, so call sites 100 and 300 collided and the span on 100 no longer matched
